@@ -246,6 +246,18 @@ def _run_case(case: dict, params: dict, stats: dict) -> dict:
                 check_doc(doc, defs_docs, params)
                 for nm, dd in defs_docs.items():
                     check_doc(dd, defs_docs, params)
+                # an independent second call with a fresh context gives the same document and definitions
+                ctx2 = Context()
+                try:
+                    doc2 = build_json_schema(roots[0], context=ctx2, with_definitions=params["with_definitions"],
+                                             with_dialect_uri=params["with_dialect_uri"], **kw).to_dict()
+                    defs2 = {k: v.to_dict() for k, v in ctx2.definitions.items()}
+                except Exception as e:
+                    return {"ok": False, "clause": "total", "what": f"second build_json_schema call raised {type(e).__name__}", "step": 0,
+                            "exc": type(e).__name__, "msg": str(e)[:300]}
+                if not deep_eq(doc2, doc) or not deep_eq(defs2, defs_docs):
+                    raise Problem("accumulate", "a second call with a fresh context gives a different document / definitions",
+                                  {"first": repr(doc)[:300], "second": repr(doc2)[:300], "defs_first": sorted(defs_docs), "defs_second": sorted(defs2)})
             else:
                 kw = {}
                 if dialect is not None:
@@ -315,6 +327,8 @@ def classify(case: dict, res: dict) -> dict:
             kind = "final-type"
         elif exc == "TypeError" and "doesn't apply to a 'CC' object" in msg and last.get("slots_hit"):
             kind = "slots-descriptor-default"
+        elif exc == "SyntaxError" and last.get("omit_default_container"):
+            kind = "omit-default-repr-splice"
         elif exc == "ValueError" and msg.startswith("mutable default") and last.get("nt_mutable"):
             kind = "nt-mutable-default"
         elif exc == "RecursionError" and last.get("cyclic") and not last.get("field_strategy_unannotated") and not last.get("field_override_container"):
